@@ -182,8 +182,12 @@ Fixpoint insert_key (k : bytes) (v : value) (l : list (bytes * value)) : list (b
 Definition sorted_fields (l : list (bytes * value)) : list (bytes * value) :=
   fold_right (fun kv acc => insert_key (fst kv) (snd kv) acc) [] l.
 
-Definition path_eqb (a b : list nat) : bool :=
-  (length a =? length b)%nat && forallb (fun p => Nat.eqb (fst p) (snd p)) (combine a b).
+(* two index paths address overlapping storage: one is a prefix of the other (equal paths included) *)
+Fixpoint path_overlap (a b : list nat) : bool :=
+  match a, b with
+  | x :: a', y :: b' => Nat.eqb x y && path_overlap a' b'
+  | _, _ => true
+  end.
 
 Definition is_empty (s : bytes) : bool := match s with [] => true | _ => false end.
 
@@ -214,10 +218,10 @@ Fixpoint copy_block (fuel : nat) (order : list (bytes * value) -> list (bytes * 
             else match x with
                  | VNil => inl (inl ENilValue)
                  | _ =>
-                   if negb optional && existsb (path_eqb path) (snd st) then inl (inl EDupField)
+                   if negb optional && existsb (path_overlap path) (snd st) then inl (inl EDupField)
                    else
                      let used' := if optional then snd st else path :: snd st in
-                     match update_path 8 (TStruct tname fs) (fst st) path
+                     match update_path (2 * length path + 2) (TStruct tname fs) (fst st) path
                              (fun ft fv =>
                                 match x with
                                 | VBlock _ _ _ => copy_block fu order ft fv x
